@@ -299,6 +299,10 @@ def check_sizes(ctx, ht, rule, select=lambda f: True):
         if not select(s.func):
             continue
         e = s.value
+        if isinstance(e, ast.Name):
+            d_ = ht.resolver(s)(e.id)
+            if isinstance(d_, ast.IfExp):
+                e = d_
         ok = False
         why = ''
         if isinstance(e, ast.IfExp):
